@@ -84,4 +84,13 @@ theorem C17_reader_novalidate (o : Opts) (h p c : Bytes) (hh : h.length = 3) (hc
     repeat' split
     all_goals rfl
 
+/-- the option theorems above hold verbatim over every exact socket connection: the reader's event
+    sequence there is the file's (`C02_events_over_exact_connection`), for every option set -/
+theorem C17_over_socket (dec : Bytes → Bytes) (R : Sock → Bytes → Prop) (E : Exact dec R)
+    (o : Opts) (items : List SItem) (hv : ∀ it ∈ items, it.Valid T2) (s : Sock) (h : R s (streamOf items)) :
+    run (sockOps dec) T2 o true s = run fileOps T2 o true (fs (streamOf items))
+    ∧ run (sockOps dec) T2 { o with parsed := true } true s = run fileOps T2 { o with parsed := true } true (fs (streamOf items)) :=
+  ⟨C02_events_over_exact_connection dec R E o items hv s h,
+   C02_events_over_exact_connection dec R E { o with parsed := true } items hv s h⟩
+
 end Rtcm
